@@ -28,6 +28,8 @@ type Opts struct {
 	MarkerHeavy  bool // whitespace markers on most elements
 	RenderHeavy  bool // favour @render / @children
 	EmptyBlocks  bool // allow a block that contains only `-#` comments
+	VerbSpacing    bool // several blanks after a format verb, a blank before the closing brace
+	TrailingSpace  bool // blanks / tabs after `- statement` lines
 	Trailers       bool // Go code after the closing brace of a template, on the same line
 	MultiLineFrags bool // Go fragments containing a newline (finding C07/multiline)
 }
@@ -43,13 +45,15 @@ type G struct {
 }
 
 func (g *G) pick(xs ...string) string { return xs[g.R.Intn(len(xs))] }
+func (g *G) pick2(xs ...[]string) []string { return xs[g.R.Intn(len(xs))] }
 func (g *G) chance(n int) bool       { return g.R.Intn(n) == 0 }
 
 func (g *G) strFrag() string {
 	if g.inLoop && g.chance(2) {
 		return "x"
 	}
-	return g.pick("s0", "s1", `"lit"`, "s0 + s1", `f2("é", s0)`)
+	// a `%` inside an expression (remainder operator, a verb inside a string literal) is not a format shorthand
+	return g.pick("s0", "s1", `"lit"`, "s0 + s1", `f2("é", s0)`, `f2("50%off now", s0)`, `f2(s1, d3[n0%3 + 1])`)
 }
 // fmtFrag: a string fragment for use after a format verb (never the loop variable: the model binds only `x`)
 func (g *G) fmtFrag() string { return g.pick("s0", "s1", `"lit"`, `f2("é", s0)`) }
@@ -237,9 +241,9 @@ func (g *G) Block(depth int) []*Node {
 			case 0:
 				out = append(out, &Node{Kind: KScript, Expr: g.pick("fe1(s0)", "fe2(s1)"), Unescaped: true})
 			case 1:
-				out = append(out, &Node{Kind: KElem, Tag: "b", ClassExprs: []string{"s0", "n0"}, Inline: &Node{Kind: KText, Parts: []Part{{Static: "bad class arg"}}}})
+				out = append(out, &Node{Kind: KElem, Tag: "b", ClassExprs: g.pick2([]string{"s0", "n0"}, []string{"n0", "s1"}, []string{"xs", "n0"}), Inline: &Node{Kind: KText, Parts: []Part{{Static: "bad class arg"}}}})
 			case 2:
-				out = append(out, &Node{Kind: KElem, Tag: "i", AttrsCmd: "s0", Inline: &Node{Kind: KText, Parts: []Part{{Static: "bad attrs arg"}}}})
+				out = append(out, &Node{Kind: KElem, Tag: "i", AttrsCmd: g.pick("s0", "m0, s0", "mb, n0", "n0, m0"), Inline: &Node{Kind: KText, Parts: []Part{{Static: "bad attrs arg"}}}})
 			case 3:
 				n := &Node{Kind: KText, Unescaped: true, Parts: []Part{{Static: "t "}, {Expr: "fe1(s1)"}}}
 				out = append(out, n)
@@ -412,7 +416,7 @@ func GenFile(r *rand.Rand, o Opts, nLayouts, nPages int) *File {
 		o.MaxDepth = 3
 		g.O.MaxDepth = 3
 	}
-	f.Chrome = append(f.Chrome, Chrome+"\nfunc f2(a, b string) string { return a + b }\nfunc pickObj(a, b Obj) Obj   { return a }\n")
+	f.Chrome = append(f.Chrome, Chrome+"\nfunc f2(a, b string) string { return a + b }\nfunc pickObj(a, b Obj) Obj   { return a }\nvar d3 = []string{\"zero\", \"one\", \"two\", \"three\"}\n")
 	for i := 0; i < nLayouts; i++ {
 		g.layoutsAvail = i
 		g.allowChildren = true
@@ -424,6 +428,29 @@ func GenFile(r *rand.Rand, o Opts, nLayouts, nPages int) *File {
 	g.allowChildren = false
 	for i := 0; i < nPages; i++ {
 		f.Templates = append(f.Templates, &Template{Name: fmt.Sprintf("P%d", i), Sig: Sig, Body: g.Block(g.O.MaxDepth)})
+	}
+	if o.VerbSpacing {
+		f.VerbStyle = g.R.Intn(4)
+	}
+	if o.TrailingSpace {
+		var pad func(ns []*Node)
+		pad = func(ns []*Node) {
+			for _, n := range ns {
+				if n.Kind == KStmt && g.chance(2) {
+					n.Pad = g.pick(" ", "   ", "\t", " \t ")
+				}
+				for i := range n.Chain {
+					if g.chance(3) {
+						n.Chain[i].Pad = g.pick(" ", "  ", "\t")
+					}
+					pad(n.Chain[i].Kids)
+				}
+				pad(n.Kids)
+			}
+		}
+		for _, t := range f.Templates {
+			pad(t.Body)
+		}
 	}
 	if o.Trailers {
 		// Go code on the line of a template's closing brace
